@@ -75,15 +75,13 @@ Proof.
 Qed.
 Print Assumptions C08_completes.
 
-(* FINDING (liveness, not content): an EMPTY source over a non-empty destination under protocol
-   >= 3 never completes -- min size 0, only Over is sent, the receiver answers nothing and the
-   sender's ack reader waits for a SUCC that never comes (the real transfer fails with
-   "Receive data timeout"; reproduced end to end by the harness) *)
-Theorem C08_empty_source_stalls : forall B H, (0 < B)%N -> forall proto stops dst,
+(* an empty source over a non-empty destination under protocol >= 3 completes and leaves an empty
+   file (before the fix of pipelineRecvHashAck the sender waited for an ack that never came) *)
+Theorem C08_empty_source_done : forall B H, (0 < B)%N -> forall proto stops dst,
   (proto <? Consts.resume_min_protocol)%N = false -> dst <> [] ->
-  run B H proto stops [] dst = SenderBlocked [Over] [].
-Proof. intros B H HB proto stops dst Hp Hd. exact (run_empty_source_blocks B H HB [] dst proto stops Hp eq_refl Hd). Qed.
-Print Assumptions C08_empty_source_stalls.
+  run B H proto stops [] dst = Done (mkOut [Over] [] 0%Z 0%Z [] []).
+Proof. intros B H HB proto stops dst Hp Hd. exact (run_empty_source_done B H HB [] dst proto stops Hp eq_refl Hd). Qed.
+Print Assumptions C08_empty_source_done.
 
 (* transcription of the receiver on a peer-chosen step (the C12 sink `make([]byte, hash.Step -
    matchStep)`, not fixed here): a step below matchStep panics, a step beyond the file makes the
